@@ -10,8 +10,14 @@ global size_of usize == 8;
 //@ include prelude/reconplan_math.rs
 
 //@ include prelude/recon_io.rs
-// std::cmp::{min,max} have no Verus spec: verified stand-ins at the two instantiations the file uses
-pub fn min(a: u64, b: u64) -> (r: u64) ensures r == if a <= b { a } else { b } { if a <= b { a } else { b } }
+// std::cmp::{min,max} have no Verus spec: verified stand-ins.  `min` is generic over the unsigned integer types (u64 is what the
+// file uses; an edit that does its term-local arithmetic in u32 / usize must still type-check, so that the /*@C17*/ clauses judge
+// it - seeds C17d, C17e); every body below is verified, nothing is assumed.  For u64 the contract reads exactly as before.
+pub trait VxInt: Copy { spec fn vx_int(self) -> int; fn vx_le(self, o: Self) -> (r: bool) ensures r == (self.vx_int() <= o.vx_int()); }
+impl VxInt for u64 { open spec fn vx_int(self) -> int { self as int } fn vx_le(self, o: Self) -> (r: bool) { self <= o } }
+impl VxInt for u32 { open spec fn vx_int(self) -> int { self as int } fn vx_le(self, o: Self) -> (r: bool) { self <= o } }
+impl VxInt for usize { open spec fn vx_int(self) -> int { self as int } fn vx_le(self, o: Self) -> (r: bool) { self <= o } }
+pub fn min<T: VxInt>(a: T, b: T) -> (r: T) ensures r == if a.vx_int() <= b.vx_int() { a } else { b } { if a.vx_le(b) { a } else { b } }
 pub fn max(a: usize, b: usize) -> (r: usize) ensures r == if a >= b { a } else { b } { if a >= b { a } else { b } }
 
 #[derive(Clone, Copy)]
@@ -99,8 +105,8 @@ impl TaskHandles {
                 && final(self).pending() == old(self).pending().remove(k),
     { unimplemented!() }
 }
-#[verifier::external_body] pub fn vx_fmt_join_error(e: &JoinError) -> (r: String) { unimplemented!() }
-#[verifier::external_body] pub fn vx_fmt_len_mismatch(got: usize, want: u32) -> (r: String) { unimplemented!() }
+// R7e: the text of an error message (`CasClientError::Other(format!(..))`), unconstrained
+#[verifier::external_body] pub fn vx_error_text() -> (r: String) { unimplemented!() }
 // R7 outline of `terms.iter().fold(0, |acc, x| acc + x.unpacked_length as u64)` (iterator chain): ASSUMED to be the sum
 spec fn sum_unpacked(terms: Seq<CASReconstructionTerm>, n: int) -> int decreases n {
     if n <= 0 { 0 } else { sum_unpacked(terms, n - 1) + terms[n - 1].unpacked_length }
@@ -163,6 +169,7 @@ pub proof fn lemma_plan_unfold(data: Seq<Seq<u8>>, off: int, total: int, i: int)
 // of the chain (`.rev()`, `.enumerate()` moved) loses the anchor -> undecided, never silently green.
 //@ extract cas_client/src/remote_client.rs in `impl RemoteClient` region reconstruct_file_to_writer_parallel
 //@ block `let term_tasks = terms.into_iter().enumerate().map(|(idx, term)| {`
+//@ optsubst `Range<u32>` => `std::ops::Range<u32>` :: R11 name resolution: remote_client.rs imports std::ops::Range as `Range`, this unit's `Range` is cas_types::Range (only fires on an edited source that names the type, e.g. an inlined helper's return type)
 //@ sig `fn par_plan_term(idx: usize, term: CASReconstructionTerm, offset_into_first_range: u64, mut bytes_written: u64, mut remaining: u64, task_info: &TermWriteTask) -> (r: (TermWriteCall, u64, u64))`
 //@ epilogue `.vx_with(bytes_written, remaining)`
 //@ contract
@@ -265,7 +272,7 @@ pub proof fn lemma_c17_writers_agree(data: Seq<Seq<u8>>, off: int, total: int, s
 //@ to-before `}` #11
 //@ sig `fn par_join(mut handles: TaskHandles, progress_updater: ProgressStub) -> (r: Result<u64>)`
 //@ subst `progress_updater.as_ref().inspect(|updater| updater.update(len_written));` => `vx_progress(&progress_updater, len_written);` :: R7 outline: closure over Option<Arc<dyn ProgressUpdater>>; no effect on the output
-//@ subst `format!("Error joining download task {e:?}")` => `vx_fmt_join_error(&e)` :: R7 outline: format! of an error message
+//@ rules R7e
 //@ contract
     requires sum_u64(handles.pending()) <= u64::MAX,
     ensures
@@ -277,9 +284,11 @@ pub proof fn lemma_c17_writers_agree(data: Seq<Seq<u8>>, off: int, total: int, s
 //@ loop 1
         invariant
             prev == handles.pending(),
-            total_written + sum_u64(handles.pending()) == sum_u64(all),
-            sum_u64(all) <= u64::MAX,
-        ensures handles.pending().len() == 0,
+            // reported so far + what the unjoined tasks will report == sum over all tasks
+            /*@C17*/ total_written + sum_u64(handles.pending()) == sum_u64(all),
+            /*@AUX*/ sum_u64(all) <= u64::MAX,
+        // every task has been joined when the loop is left
+        ensures /*@C17*/ handles.pending().len() == 0,
         decreases handles.pending().len(),
 //@ before `vx_progress`
                     proof {
@@ -375,18 +384,27 @@ impl RemoteClient {
     let ghost wpre = writer.pre();
     let ghost nterms = terms@.len() as int;
     proof {
-        assert(total == req_total(byte_range, terms@));
+        // ties the code's total_len to the requested total of the contract (not a proof convenience)
+        /*@C17*/ assert(total == req_total(byte_range, terms@));
         lemma_sum_unpacked_is_sum_len(terms@, data, nterms);
     }
 //@ loop 1
         invariant
-            /*@C17*/ data == futs_buffered_enumerated.items(), off == offset_into_first_range as int, total == total_len as int,
-            plan_ok(data, off, total), off + total <= u64::MAX,
-            i == futs_buffered_enumerated.pos(), 0 <= i <= data.len(),
-            remaining_len == plan_rem(data, off, total, i),
-            writer.pre() == wpre,
-            writer.content() == write_at(wpre, 0, pieces(data, off, total, i)),
-            writer.pos() == pieces(data, off, total, i).len(),
+            // the stream yields the terms' data in plan order (holds only for the order-preserving combinator)
+            /*@C17*/ data == futs_buffered_enumerated.items(),
+            off == offset_into_first_range as int,
+            total == total_len as int,
+            /*@AUX*/ plan_ok(data, off, total),
+            /*@AUX*/ off + total <= u64::MAX,
+            i == futs_buffered_enumerated.pos(),
+            0 <= i <= data.len(),
+            // remaining budget == total - bytes written so far (plan_rem(i) == total - plan_bw(i))
+            /*@C17*/ remaining_len == plan_rem(data, off, total, i),
+            /*@AUX*/ writer.pre() == wpre,
+            // bytes written so far == the pieces of the first i terms, at offset 0
+            /*@C17*/ writer.content() == write_at(wpre, 0, pieces(data, off, total, i)),
+            // write position == sum of the lengths written so far
+            /*@C17*/ writer.pos() == pieces(data, off, total, i).len(),
         ensures i == data.len(),
         decreases data.len() - futs_buffered_enumerated.pos(),
 //@ before `let start = if term_idx == 0`
@@ -588,7 +606,7 @@ fn vx_find_fetch_term<'a>(hash_fetch_info: &'a Vec<CASReconstructionFetchInfo>, 
 //@ subst `term.hash.into()` => `vx_into_merklehash(term.hash)` :: R11 stub for `From<HexMerkleHash> for MerkleHash` (newtype unwrap)
 //@ subst `hash_fetch_info.iter().find(|fterm| fterm.range.start <= term.range.start && fterm.range.end >= term.range.end)` => `vx_find_fetch_term(hash_fetch_info, &term)` :: R7 outline of iterator find with a closure; contract assumed (an element satisfying the predicate)
 //@ optsubst `format!("{} {}", fetch_term.url, range_header(&fetch_term.url_range))` => `vx_key(&fetch_term.url, range_header(&fetch_term.url_range))` :: R7 outline: two-argument format! (a, one space, b); contract assumed
-//@ subst `format!("result term data length {} did not match expected value {}", data.len(), term.unpacked_length)` => `vx_fmt_len_mismatch(data.len(), term.unpacked_length)` :: R7 outline: format! of an error message
+//@ rules R7e
 //@ contract
     requires
         // plan-validity domain: every fetch_info entry is truthful (entry_ok), a term names at least one chunk or is reversed
@@ -621,8 +639,13 @@ fn vx_find_fetch_term<'a>(hash_fetch_info: &'a Vec<CASReconstructionFetchInfo>, 
         assert(data0.subrange(cbi0[0] as int, cbi0[n] as int) == xorb_chunk_bytes(term.hash, fetch_term.range.start + 0, fetch_term.range.start + n));
         assert(trim_want(term, fetch_term, data0, cbi0) == xorb_chunk_bytes(term.hash, fetch_term.range.start + (term.range.start - fetch_term.range.start), fetch_term.range.start + (term.range.end - fetch_term.range.start)));
     }
+//@ before `assert(start_byte_index < data.len());`
+        // ties the code's byte indices to the spec's: cbi[term.start - fetch.start], cbi[term.end - fetch.start] (placed before the source's
+        // debug_asserts, which Verus would otherwise assume after failing and so mask a wrong index)
+        proof { /*@C17*/ assert(start_byte_index == cbi0[term.range.start - fetch_term.range.start] && end_byte_index == cbi0[term.range.end - fetch_term.range.start]); }
 //@ after `data = data.split_off(start_byte_index);`
-        proof { assert(data@ =~= data0.subrange(start_byte_index as int, end_byte_index as int)); }
+        // ties the code's trimmed buffer to the spec slice (not a proof convenience): data' == data[cbi[s]..cbi[e]]
+        proof { /*@C17*/ assert(data@ =~= data0.subrange(start_byte_index as int, end_byte_index as int)); }
 //@ end
 
 impl TermWriteTask {
@@ -768,7 +791,7 @@ impl ThreadSafeBuffer {
 //@ subst `self.inner.lock().map_err(|e| std::io::Error::other(format!("{e}")))?` => `vx_lock(&self.inner)?` :: R7 outline: poison-error conversion closure with format!
 //@ contract
     ensures
-        final(self).inner.id() == old(self).inner.id(),
+        /*@AUX*/ final(self).inner.id() == old(self).inner.id(),
         // one positioned write at the handle's offset into the shared buffer; the handle advances by what was written
         /*@C17*/ r matches Ok(p) ==> p.1.of() == old(self).inner.id(),
         /*@C17*/ r matches Ok(p) ==> p.0 == buf@.len(),
